@@ -666,6 +666,54 @@ after_fault(const struct ev_s *e, const char *when)
 		if (VT->af_seen[q] == h) return;
 		if (VT->af_seen[q] == 0) { VT->af_seen[q] = h; break; }
 	}
+	/* no further command at all: the daemon is shut down cleanly; its final checkpoint runs undisturbed and must
+	 * bring every acknowledged change to the spool, also those whose checkpoint failed before */
+	{
+		pid_t c;
+		int st;
+		fflush(stdout);
+		if ((c = fork()) == 0) {
+			struct hx_reply_s rp;
+			static struct rs_task_s rs[HX_MAXTASKS];
+			struct ev_s ck = {E_SHUTDOWN, 0, 0, 0};
+			int n;
+			prctl(PR_SET_PDEATHSIG, SIGKILL);
+			hx_steps_armed = 0, hx_fail_at = -1, hx_step_hook = NULL;
+			snprintf(shape, sizeof(shape), "%s/%s/then-clean-shutdown", evk(e), when);
+			VT->epoch2++;
+			do_ckpt_event(&ck, &rp);
+			for (int i = 0; i < HX_NFILES; i++) {
+				if (!hx_files[i].live || strncmp(hx_files[i].name, "echsq_", 6)) continue;
+				if (!hx_complete_ical(hx_files[i].data, hx_files[i].len)) {
+					report("torn-live", shape, "%s: after a clean shutdown the live file %s (%zu bytes) is not one complete calendar", when, hx_files[i].name, hx_files[i].len);
+					_exit(0);
+				}
+			}
+			VT->reloads++;
+			n = rs_reload(hx_files, rs);
+			if (n < 0) {
+				report("reload-died", shape, "%s: after a clean shutdown a restart dies loading the spool", when);
+				_exit(0);
+			}
+			for (int q = 0; q < NUID; q++) {
+				int have = 0;
+				for (int j = 0; j < n; j++) have += !strcmp(rs[j].uid, uids[q]) && (!M.cur[q].present || rs[j].owner == M.cur[q].owner);
+				if (have != (M.cur[q].present != 0)) {
+					snprintf(why, sizeof(why), "%s %s after restart", uids[q], have ? "is scheduled although it was cancelled (acknowledged)" : "is missing although it was accepted");
+					report("reload-set", shape, "%s, then a clean shutdown: %s", when, why);
+					_exit(0);
+				}
+			}
+			fflush(stdout);
+			_exit(0);
+		}
+		while (waitpid(c, &st, 0) < 0 && errno == EINTR);
+		if (!(WIFEXITED(st) && WEXITSTATUS(st) == 0)) {
+			snprintf(shape, sizeof(shape), "%s/%s/then-clean-shutdown", evk(e), when);
+			report("epoch2-died", shape, "%s: the daemon dies (status %#x) in the clean shutdown that follows", when, st);
+			return;
+		}
+	}
 	for (int k = 0; k < NUID; k++) {
 		if (!M.cur[k].present) continue;
 		for (int kind = 0; kind < 2; kind++) {
